@@ -10,6 +10,6 @@ package cbor
 // dagcbor.DecodeOptions.Decode (strictness, depth and allocation bounds, end of stream) applies.
 //@ func Decode(na, r) (err)
 //@   requires na != nil && r != nil && r.teesink == nil
-//@   before Decode assert[C03,C10] !carg0.AllowLinks && !carg0.RelaxedDecode && !carg0.DontParseBeyondEnd && carg0.AllocationBudget == 0 && carg0.MaxDepth == 0 && carg1 == na && carg2 == r
+//@   before Decode assert[C03,C06,C10] !carg0.AllowLinks && !carg0.RelaxedDecode && !carg0.DontParseBeyondEnd && carg0.AllocationBudget == 0 && carg0.MaxDepth == 0 && carg1 == na && carg2 == r
 // (The plain CBOR encoder — links refused, default key order — is not part of the C02 check, whose
 // token-path proof is stated for the DAG-CBOR options.)
